@@ -87,6 +87,7 @@ type State struct {
 	reached map[string]bool
 	nd     []ndRec // nondet sources created on this path (for counterexamples)
 	ghost  map[string]int
+	gterm  map[string]*Term // term-valued ghosts (e.g. the ttl last handed to the otter model)
 	sched  []int
 	nSched int
 	dead   bool
@@ -181,6 +182,12 @@ func (s *State) clone(e *Engine) *State {
 		n.subst = make(map[int]*Term, len(s.subst))
 		for k, v := range s.subst {
 			n.subst[k] = v
+		}
+	}
+	if len(s.gterm) > 0 {
+		n.gterm = make(map[string]*Term, len(s.gterm))
+		for k, v := range s.gterm {
+			n.gterm[k] = v
 		}
 	}
 	n.lastNow = s.lastNow
